@@ -1,4 +1,4 @@
-use crate::engine::{BufferRef, Nullable, QueryPlanner, TypedBufferRef};
+use crate::engine::{BufferRef, EncodingType, Nullable, QueryPlanner, TypedBufferRef};
 
 #[derive(Clone, Copy, Default)]
 pub enum Filter {
@@ -17,6 +17,8 @@ impl Filter {
             Filter::U8(filter) => planner.filter(plan, filter),
             Filter::NullableU8(filter) => planner.nullable_filter(plan, filter),
             Filter::Indices(indices) => planner.select(plan, indices),
+            // A column that is entirely NULL in this partition has type `Null`, for which there is no `empty` operator.
+            Filter::Null if plan.tag == EncodingType::Null => planner.null_vec(0, EncodingType::Null),
             Filter::Null => planner.empty(plan.tag),
             Filter::None => plan,
         }
